@@ -928,3 +928,156 @@ pub fn dense(cfg: Cfg, vars: Vec<Variant>) -> Space {
         },
     )
 }
+
+// ---------------------------------------------------------------------------------------------
+// three-way combinations
+
+fn special_value(w: usize) -> u64 {
+    match w {
+        4 => 14,
+        5 => 24,
+        6 => 60,
+        8 => 128,
+        9 => 360,
+        10 => 1022,
+        12 => 3600,
+        14 => 8191,
+        17 => 54_600,
+        18 => 108_600,
+        27 => 54_600_000,
+        28 => 108_600_000,
+        30 => 970_000_000,
+        _ => ((1u64 << w) - 1).saturating_sub(1),
+    }
+}
+
+/// MSG-TRIPLE: every TRIPLE of fields of every layout variant × 5³ values {0, all ones, 1, 1010…,
+/// the width's sentinel / a characteristic value}, zero context — behaviour that needs three fields
+/// to have particular (boundary) values at once.
+pub fn field_triples(cfg: Cfg, vars: Vec<Variant>) -> Space {
+    let locs: Vec<Vec<(usize, usize)>> = vars
+        .iter()
+        .map(|v| {
+            let mut l: Vec<(usize, usize)> = Vec::new();
+            for s in fields_of(v) {
+                let x = (s.off as usize, s.w as usize);
+                // radio pseudo-fields overlap each other: keep the 19-bit state out, its parts in
+                if x.1 > 0 && x.1 <= 30 && !l.contains(&x) && !l.iter().any(|&(o, w)| o == x.0 && w != x.1) {
+                    l.push(x);
+                }
+            }
+            l
+        })
+        .collect();
+    let c3 = |n: u64| if n < 3 { 0 } else { n * (n - 1) * (n - 2) / 6 };
+    let mut starts = Vec::new();
+    let mut total = 0u64;
+    for l in &locs {
+        starts.push(total);
+        total += c3(l.len() as u64) * 125;
+    }
+    Space::new(
+        "MSG-TRIPLE",
+        "every triple of fields of every layout variant x 5^3 values {0, all ones, 1, 1010.., sentinel/characteristic value of the width}, zero context",
+        total,
+        move |i, l| {
+            let vi = match starts.binary_search(&i) {
+                Ok(x) => x,
+                Err(x) => x - 1,
+            };
+            let v = &vars[vi];
+            let lc = &locs[vi];
+            let n = lc.len() as u64;
+            let mut r = Radix(i - starts[vi]);
+            let vals = [r.take(5), r.take(5), r.take(5)];
+            // triple index -> (x<y<z)
+            let mut j = r.0;
+            let mut x = 0u64;
+            loop {
+                let rem = n - 1 - x;
+                let cnt = rem * (rem - 1) / 2;
+                if j < cnt {
+                    break;
+                }
+                j -= cnt;
+                x += 1;
+            }
+            let (y, z) = pair_of(n - 1 - x, j);
+            let idx = [x as usize, (x + 1 + y) as usize, (x + 1 + z) as usize];
+            let mut p = v.base(0);
+            for (k, &fi) in idx.iter().enumerate() {
+                let (o, w) = lc[fi];
+                let mask = (1u64 << w) - 1;
+                let val = match vals[k] {
+                    0 => 0,
+                    1 => mask,
+                    2 => 1,
+                    3 => 0xAAAA_AAAA_AAAA_AAAA & mask,
+                    _ => special_value(w) & mask,
+                };
+                set_bits(&mut p, o, w, val);
+            }
+            judge_payload(l, &p, cfg);
+        },
+    )
+}
+
+/// MSG-TEXT-ADJ: every ADJACENT pair of positions × 64² characters, from 4 base strings, for every
+/// text field (two-character sequences such as "@@", " @", "_?" anywhere in a field).
+pub fn text_adjacent(cfg: Cfg, vars: Vec<Variant>) -> Space {
+    let tf = text_fields(&vars);
+    let mut starts = Vec::new();
+    let mut total = 0u64;
+    for t in &tf {
+        starts.push(total);
+        total += 4 * (t.nchars as u64 - 1) * 4096;
+    }
+    Space::new(
+        "MSG-TEXT-ADJ",
+        "every text field x 4 base strings x every adjacent pair of positions x 64^2 characters",
+        total,
+        move |i, l| {
+            let ti = match starts.binary_search(&i) {
+                Ok(x) => x,
+                Err(x) => x - 1,
+            };
+            let t = &tf[ti];
+            let v = &vars[t.vi];
+            let mut r = Radix(i - starts[ti]);
+            let kind = r.take(4);
+            let c0 = r.take(64) as u8;
+            let c1 = r.take(64) as u8;
+            let pos = r.0 as usize;
+            let mut txt = base_text(kind, t.nchars);
+            txt[pos] = c0;
+            txt[pos + 1] = c1;
+            let mut p = v.base(if kind % 2 == 0 { 0 } else { 1 });
+            put_text(&mut p, t.off, &txt);
+            judge_payload(l, &p, cfg);
+        },
+    )
+}
+
+/// MSG-BIN-APPID: types 6 and 8 × ALL 2^16 (DAC, FID) pairs × 3 data lengths × 2 contents: the
+/// payload must pass through untouched whatever the application identifier is.
+pub fn binary_appid(cfg: Cfg) -> Space {
+    Space::new(
+        "MSG-BIN-APPID",
+        "types 6 and 8 x all 2^16 (DAC, FID) values x data lengths {0, 9, 40} bytes x contents {position-coded, ones}",
+        2 * 65536 * 3 * 2,
+        move |i, l| {
+            let mut r = Radix(i);
+            let t = if r.take(2) == 0 { 6u64 } else { 8 };
+            let content = r.take(2);
+            let dlen = [0usize, 9, 40][r.take(3) as usize];
+            let appid = r.0;
+            let (hdr, off) = if t == 6 { (11usize, 72usize) } else { (7, 40) };
+            let mut p: Vec<u8> = (0..hdr + dlen)
+                .map(|j| if content == 0 { (j as u8).wrapping_mul(37).wrapping_add(11) } else { 0xFF })
+                .collect();
+            set_bits(&mut p, 0, 6, t);
+            set_bits(&mut p, off, 16, appid);
+            judge_payload(l, &p, cfg);
+        },
+    )
+}
